@@ -25,7 +25,10 @@ def cli(args, timeout=60):
 
 
 def iface_hash(unit):
-    view = {k: unit[k] for k in ("format_version", "compiler_abi", "package", "exports", "hir_interface", "deps")}
+    try:
+        view = {k: unit[k] for k in ("format_version", "compiler_abi", "package", "exports", "hir_interface", "deps")}
+    except KeyError:
+        return unit.get("interface_hash", "")
     b = json.dumps(view, separators=(",", ":"), ensure_ascii=False).encode("utf-8")
     return hashlib.sha256(b).hexdigest()
 
@@ -110,16 +113,16 @@ def corrupt_file(proj, p, which, kind, rnd):
     else:
         if which == "interface":
             fld = rnd.choice(["format_version", "compiler_abi"])
-            j[fld] = 2
+            j[fld] = j[fld] + 1          # the next version, whatever the current one is
             j["interface_hash"] = iface_hash(j)
             desc = "otherversion:interface." + fld
         else:
             choice = rnd.choice(["top.format_version", "top.compiler_abi", "iface.format_version", "iface.compiler_abi"])
             where, fld = choice.split(".")
             if where == "top":
-                j[fld] = 2
+                j[fld] = j[fld] + 1
             else:
-                j["interface"][fld] = 2
+                j["interface"][fld] = j["interface"][fld] + 1
                 j["interface"]["interface_hash"] = iface_hash(j["interface"])
             desc = "otherversion:core." + choice
     with open(path, "w") as f:
@@ -238,8 +241,10 @@ def sweep_corruptions(rep, root, limit, rnd):
     for (p, which) in (("A", "interface"), ("B", "core"), ("A", "core"), ("Main", "core")):
         orig = open(proj.path(p, which)).read()
         j = json.loads(orig)
-        if which == "interface" and iface_hash(j) != j["interface_hash"]:
-            raise ToolError("sweep: cannot reproduce interface_hash outside the compiler")
+        if which == "interface":
+            # forging a consistent hash for an artifact of another version needs the compiler's hash function; when it
+            # cannot be reproduced here (another algorithm) those artifacts are still offered, with the stale hash
+            rep.coverage["interface_hash_reproducible_outside_the_compiler"] = iface_hash(j) == j["interface_hash"]
         ls = [(pa, v) for pa, v in leaves(j) if alter(v) is not None]
         targets.append((p, which, orig, j, ls))
     done = 0
